@@ -130,3 +130,33 @@ func VerifC19Delivery() {
 	}
 	symAssert(symQuiesce() == 0, "no goroutine is left blocked forever")
 }
+
+// VerifC19Reconnect: clients come and go between broadcasts; every client connected when a
+// reload is broadcast receives it (identities must not be confused after churn).
+func VerifC19Reconnect() {
+	h := New()
+	a, b := verifNewClient(false), verifNewClient(false)
+	a.serve(h)
+	symQuiesce()
+	b.serve(h)
+	symQuiesce()
+	// one of the two leaves, a third one joins
+	leaver, stayer := a, b
+	if symBool("secondLeaves") {
+		leaver, stayer = b, a
+	}
+	leaver.disconnect()
+	symQuiesce()
+	c := verifNewClient(false)
+	c.serve(h)
+	symQuiesce()
+	h.Send("message", "reload")
+	symQuiesce()
+	symCover("reconnected")
+	symAssert(stayer.received("reload"), "the client that stayed connected receives the broadcast")
+	symAssert(c.received("reload"), "the client that joined after the churn receives the broadcast")
+	symAssert(!leaver.received("reload"), "the client that left receives nothing")
+	stayer.disconnect()
+	c.disconnect()
+	symAssert(symQuiesce() == 0, "no goroutine is left blocked forever")
+}
